@@ -5,37 +5,71 @@ PROP = "C18"
 ENGINE = "path"
 LEAN_MODULES = ["RtoscModel.Props.C18"]
 THEOREMS = ["Rtosc.Path.collapse_eq_spec", "Rtosc.Path.collapse_in_place",
-            "Rtosc.Path.apropos_of_walked", "Rtosc.Path.apropos_of_walked_local", "Rtosc.Path.index_spec",
+            "Rtosc.Path.apropos_of_walked", "Rtosc.Path.apropos_of_walked_local", "Rtosc.Path.apropos_of_walked_enum_partial",
+            "Rtosc.Path.index_spec", "Rtosc.Path.search_location_dir",
             "Rtosc.Path.search_children", "Rtosc.Path.search_sorted", "Rtosc.Path.search_unique_prefix",
             "Rtosc.Path.search_reply_wf", "Rtosc.Path.sort_result_unique"]
 HARNESS = {"src": ["path.cpp"]}
 RULE = ("collapse: every absolute path of 1..8 distinct components with '..' at every subset of positions, with and "
         "without trailing '/', plus random paths over the components a bc foo . ... ..x x.. <empty> .. (and a small "
-        "stream of relative paths, compared with the model only); lookup: random port trees (depth <= 3, <= 5 rows per "
-        "table, literal names over a b / with optional :args, duplicate names and common prefixes in the 'messy' half), "
-        "every walked address with and without leading '/', plus truncated/extended addresses (model only); search: "
-        "the same trees with metadata blocks of every length 3..30 (with and without leading ':'), NULL and empty "
-        "metadata, all three options, both reply_with_query values, prefix = empty / NULL / a prefix of a child name / "
-        "a whole name / a non-matching string, exact and ample max_ports, exact / too small / ample reply buffers. "
+        "stream of relative paths, compared with the model only), plus deep and long paths: 9..64 components of 1..300 "
+        "bytes (lengths around 16/32/64/128/256 included), n ordinary components followed by 0..n+1 '..' for n around "
+        "16/32/64, and random '..' densities; lookup: random port trees (depth <= 3, <= 5 rows per table, names over "
+        "a b / with digits, optional :args, enumerated rows `p#3/ x#12 a/b#2 v#2b q#10/r`, duplicate names and common "
+        "prefixes in the 'messy' half), every walked address (a sample of 16 when enumerated rows multiply them) with "
+        "and without leading '/', checked against the port it was walked from; plus truncated/extended/out-of-range-index "
+        "addresses and addresses of ambiguous rows, for which only memory safety is observed (both sides print `A *`); "
+        "search: the same trees with metadata blocks of every length 3..30 and long blocks (31..70, 250..270, 511..1025, "
+        "5000+ bytes; with and without leading ':'), NULL and empty metadata, all three options, both reply_with_query "
+        "values, prefix = empty / NULL / a prefix of a child name / a whole name / a non-matching string, exact and ample "
+        "max_ports, exact / too small / ample reply buffers; flat tables with duplicate names and chains of `name/` "
+        "prefixes; tables of names differing in digit runs only (a1 a2 a10 a01 a/9 a/10 ...); wide tables of 17..120 rows "
+        "with max_ports to match; searches at locations the property does not constrain print `S *` on both sides. "
         "non-trivial: collapse with at least one '..'; lookup in a tree with >= 3 ports; search over >= 2 rows. "
         "distinct = distinct op line")
-ASSUMPTIONS = ["port names are literal (no { * #), NUL-free and non-empty; a port with a sub-table has a name ending in '/'",
+ASSUMPTIONS = ["port names are NUL-free and non-empty and do not use '{' or '*' (those pattern characters are C05's subject; the "
+               "model answers `unsupported`); a port with a sub-table has a name ending in '/'",
+               "the lookup THEOREM for whole trees (apropos_of_walked) is about literal names only (no '#'); for enumerated rows "
+               "`name#N` (one '#' per name, 1 <= N < 2^31, followed by a non-digit) the model has the '#' branch of "
+               "rtosc_match_path and the check compares it with the code and checks every walked address, but only the "
+               "single-row step is proved (apropos_of_walked_enum_partial); the whole-tree statement is "
+               "apropos_of_walked_enum_statement (not proved)",
                "generated port names use bytes 1..126 only: Ports::refreshMagic (find_assoc/do_hash, C04's hashing) indexes a "
                "127-entry table with the name's char, so other bytes are undefined behaviour before any C18 function runs",
                "lookup of a walked address: no other row of a table on the way is a prefix of, or prefixed by, the row taken "
-               "(names compared up to ':')",
+               "(names compared up to ':'; for enumerated rows: no expanded name of one row is a prefix of an expanded name of another)",
+               "child search: 'the addressed port' is what the model of Ports::apropos returns for the location "
+               "(SearchHyp.resolves); search_location_dir proves that the address of a directory (literal names, no sibling a "
+               "prefix of the row taken, last directory name with its only '/' at its end) resolves to that directory's table; "
+               "multi-'/' directory names such as `a/b/` are not found by their own address `a/b/` in the unchanged code "
+               "(Ports::apropos tests strchr(path,'/')[1]; dir_multi_slash_counterexample) and are left unconstrained, as are "
+               "directory addresses written without the trailing '/'",
                "non-empty metadata blocks end with the first double NUL (what the rtosc macros produce)",
                "max_args >= 2 * (matching children) + 2 * reply_with_query and max_types = max_args + 1 as documented",
                "std::sort is modelled by its contract (any permutation sorted by the comparator)",
-               "path lengths and message sizes below 2^31 (int consuming, unsigned pos)"]
+               "path lengths and message sizes below 2^31 (int consuming, unsigned pos)",
+               "`walk` (RtoscModel/Path/Apropos.lean) / `walkE` (Path/Enum.lean) are this property's own short specifications of "
+               "the addresses walk_ports reports; they are not derived from C09's model of walk_ports"]
 TRUSTED = ["hand-written models RtoscModel/Path/{Collapse,Apropos,Search}.lean of collapsePath / parent_path_p / read_path / "
-           "move_path, Ports::operator[], Ports::apropos, the literal-pattern fragment of rtosc_match_path, both "
-           "path_search overloads, and rtosc_amessage restricted to 's'/'b' arguments",
+           "move_path, Ports::operator[], Ports::apropos, rtosc_match_path for patterns of literal characters and '#N' "
+           "(with rtosc_match_number; atoi below 2^31), both path_search overloads, and rtosc_amessage restricted to "
+           "'s'/'b' arguments",
+           "specification of the walked addresses (`walk`, `walkE`) written for this property, not linked to C09's walk_ports model",
            "contract of std::sort"]
-LEVEL_TEXT = ("Lean theorems (collapse_eq_spec, collapse_in_place, apropos_of_walked, search_children, search_sorted, "
-              "search_unique_prefix, search_reply_wf) hold for all paths, trees and queries of any size; the models they are "
-              "about are compared with the compiled implementation (ASan/UBSan, exact-size allocations) on thousands of generated "
+LEVEL_TEXT = ("Lean theorems hold for all paths, trees and queries of any size: collapse_eq_spec, collapse_in_place (collapsing); "
+              "apropos_of_walked (lookup of every walked address, for trees of literal names); search_children, search_sorted, "
+              "search_unique_prefix (the children, their order, and each blob = exactly the metadata block, length field "
+              "included), search_reply_wf (well-formed reply), search_location_dir (a directory address selects that directory's rows). For enumerated rows `name#N` only the one-row step of the lookup "
+              "is proved (apropos_of_walked_enum_partial); the whole-tree statement apropos_of_walked_enum_statement is "
+              "stated, not proved, and is covered by the comparison and the oracle only. The models the theorems are about "
+              "are compared with the compiled implementation (ASan/UBSan, exact-size allocations) on thousands of generated "
               "cases per run, and an independent Python reference of the specification is evaluated on the implementation's output")
+LEVEL_NOTE = ("Trusted: Lean kernel; the hand-written model is tied to the code by differential execution only; see evidence "
+              "trusted_base. In the search theorems 'the addressed port' is the port the model of Ports::apropos returns for the "
+              "location; search_location_dir ties a directory address to the rows of that directory for literal single-'/' "
+              "directory names, apropos_of_walked does it for leaf addresses; other locations are unconstrained. Outputs for addresses/locations "
+              "the property does not constrain are not compared (only memory safety); an empty blob is compared by its length, "
+              "not by its data pointer.")
 
 
 def hx(b):
@@ -60,6 +94,7 @@ def collapse_spec(path):
     return b"".join(b"/" + c for c in st)
 
 
+LONG_LENS = [15, 16, 17, 31, 32, 33, 63, 64, 65, 127, 128, 129, 255, 256, 257, 300]
 COMPS = [b"a", b"bc", b"foo", b".", b"...", b"..x", b"x..", b"", b"..", b"..", b".."]
 
 
@@ -93,6 +128,37 @@ def gen_collapse(rng, tier, stats):
         st["dotdot_hist"][str(k)] = st["dotdot_hist"].get(str(k), 0) + 1
         tail = rng.choice([b"", b"", b"zz", b"/..\0"])
         yield "C " + hx(p + b"\0" + tail)
+    # deep and long paths: 9..64 components of 1..300 bytes (nothing in the statement bounds either)
+    st.setdefault("deep", 0)
+    st.setdefault("deep_max_kept", 0)
+    st.setdefault("complen_max", 0)
+
+    def comp(i):
+        r = rng.random()
+        n = rng.randint(1, 3) if r < 0.7 else rng.choice(LONG_LENS) if r < 0.9 else rng.randint(4, 300)
+        st["complen_max"] = max(st["complen_max"], n)
+        return (b"%d" % i + b"q" * n)[:n] if rng.random() < 0.8 else bytes(rng.choice(b"ab.-") for _ in range(n))
+
+    def emit(comps, trail=b""):
+        k = d = 0
+        for c in comps:
+            d = max(0, d - 1) if c == b".." else d + 1
+            k = max(k, d)
+        st["deep"] += 1
+        st["deep_max_kept"] = max(st["deep_max_kept"], k)
+        st["ncomp_hist"][str(len(comps))] = st["ncomp_hist"].get(str(len(comps)), 0) + 1
+        return "C " + hx(b"".join(b"/" + c for c in comps) + trail + b"\0")
+    # n ordinary components, then k of them cancelled again, then one more
+    for n in (9, 15, 16, 17, 18, 31, 32, 33, 63, 64):
+        for k in sorted({0, 1, n // 2, n - 1, n, n + 1}):
+            comps = [comp(i) for i in range(n)] + [b".."] * k + [b"z"]
+            if comps.count(b"..") == k:
+                yield emit(comps, rng.choice([b"", b"/"]))
+    for _ in range(150 if tier == "quick" else 6000):
+        n = rng.randint(9, 64)
+        pdd = rng.choice([0.1, 0.25, 0.45])
+        comps = [b".." if rng.random() < pdd else comp(i) for i in range(n)]
+        yield emit(comps, rng.choice([b"", b"", b"/"]))
 
 
 def oracle_collapse(w, out):
@@ -170,13 +236,16 @@ def rand_meta(rng, stats):
     if r < 0.25:
         stats["meta_empty"] = stats.get("meta_empty", 0) + 1
         return b"\0"
-    # a block of a chosen total length 3..30
-    want = rng.randint(3, 30)
+    # a block of a chosen total length: 3..30 mostly, and long ones (documentation strings run to kilobytes)
+    r = rng.random()
+    want = (rng.randint(3, 30) if r < 0.88 else rng.randint(31, 70) if r < 0.93 else rng.randint(250, 270) if r < 0.97
+            else rng.choice([511, 512, 513, 1000, 1023, 1024, 1025, 5000]))
     colon = rng.random() < 0.75
     entries = []
     while True:
         k = bytes(rng.choice(b"abk") for _ in range(rng.randint(1, 3)))
-        v = None if rng.random() < 0.3 else bytes(rng.choice(b"vw:= 1") for _ in range(rng.randint(0, 6)))
+        vmax = 6 if want <= 30 else max(6, want // 3)
+        v = None if rng.random() < 0.3 else bytes(rng.choice(b"vw:= 1") for _ in range(rng.randint(0 if want <= 30 else vmax // 2, vmax)))
         entries.append((k, v))
         b = ser_meta(entries, colon)
         if len(b) >= want:
@@ -189,13 +258,17 @@ def rand_meta(rng, stats):
             entries[0] = (k, v[:len(v) - over])
             b = ser_meta(entries, colon)
     h = stats.setdefault("meta_len_hist", {})
-    h[str(len(b))] = h.get(str(len(b)), 0) + 1
+    key = str(len(b)) if len(b) <= 30 else "31-70" if len(b) <= 70 else "71-249" if len(b) < 250 else "250-300" if len(b) <= 300 else ">300"
+    h[key] = h.get(key, 0) + 1
+    stats["meta_len_max"] = max(stats.get("meta_len_max", 0), len(b))
     if not colon:
         stats["meta_no_colon"] = stats.get("meta_no_colon", 0) + 1
     return b
 
 
-NAME_PARTS = [b"a", b"b", b"ab", b"abc", b"ba", b"x", b"a/b", b"b/a", b"a/x", b"c1", b"-p", b"a.b"]
+NAME_PARTS = [b"a", b"b", b"ab", b"abc", b"ba", b"x", b"a/b", b"b/a", b"a/x", b"c1", b"-p", b"a.b",
+              # enumerated ports (`name#N`: one port standing for name0 .. name<N-1>), digits in literal names
+              b"p#3", b"x#12", b"a/b#2", b"v#2b", b"e#1", b"q#10/r", b"a1", b"a2", b"a10", b"a01"]
 ARGS = [b"", b"", b":i", b":s:", b"::f", b":"]
 
 
@@ -215,7 +288,7 @@ def rand_tree(rng, depth, messy, stats, top=True):
             l = o if rng.random() < 0.5 else o + rng.choice([b"x", b"b/", b"a"])
             if issub and not l.endswith(b"/"):
                 l += b"/"
-        if not messy and any(u.startswith(l) or l.startswith(u) for u in used):
+        if not messy and any(a.startswith(b) or b.startswith(a) for u in used for a in expand(u) for b in expand(l)):
             continue
         used.append(l)
         name = l + rng.choice(ARGS)
@@ -226,26 +299,41 @@ def rand_tree(rng, depth, messy, stats, top=True):
     return ports
 
 
+def expand(l):
+    """the literal names an enumerated name `pre#N post` stands for (walk_ports: pre0 post .. pre<N-1> post); a
+    name without '#' stands for itself"""
+    h = l.find(b"#")
+    if h < 0:
+        return [l]
+    j = h + 1
+    while j < len(l) and l[j:j + 1].isdigit():
+        j += 1
+    if j == h + 1:
+        return [l]
+    return [l[:h] + b"%d" % k + t for k in range(int(l[h + 1:j])) for t in expand(l[j:])]
+
+
 def leaves(ports, prefix=b"", ix=()):
     """(relative address, index path) of every port the walk reports"""
     for i, p in enumerate(ports):
         if p.sub is not None:
-            pre = lit(p.name)
-            if not pre.endswith(b"/"):
-                pre += b"/"
-            yield from leaves(p.sub, prefix + pre, ix + (i,))
+            for pre in expand(lit(p.name)):
+                if not pre.endswith(b"/"):
+                    pre += b"/"
+                yield from leaves(p.sub, prefix + pre, ix + (i,))
         else:
-            yield prefix + lit(p.name), ix + (i,)
+            for a in expand(lit(p.name)):
+                yield prefix + a, ix + (i,)
 
 
 def subtrees(ports, prefix=b"", ix=()):
     for i, p in enumerate(ports):
         if p.sub is not None:
-            pre = lit(p.name)
-            if not pre.endswith(b"/"):
-                pre += b"/"
-            yield prefix + pre, ix + (i,)
-            yield from subtrees(p.sub, prefix + pre, ix + (i,))
+            for pre in expand(lit(p.name)):
+                if not pre.endswith(b"/"):
+                    pre += b"/"
+                yield prefix + pre, ix + (i,)
+                yield from subtrees(p.sub, prefix + pre, ix + (i,))
 
 
 def port_at(ports, ix):
@@ -262,16 +350,21 @@ def unambiguous(ports, ix):
         me = lit(ports[i].name)
         if not me or me.startswith(b"/"):
             return False
+        mine = expand(me)
         for j, q in enumerate(ports):
             if j != i:
-                o = lit(q.name)
-                if o.startswith(me) or me.startswith(o):
-                    return False
+                for o in expand(lit(q.name)):
+                    if any(o.startswith(m) or m.startswith(o) for m in mine):
+                        return False
         if depth + 1 < len(ix):
             if ports[i].sub is None or not me.endswith(b"/"):
                 return False
             ports = ports[i].sub
     return True
+
+
+def has_hash(ports):
+    return any(b"#" in lit(p.name) or (p.sub is not None and has_hash(p.sub)) for p in ports)
 
 
 def count_ports(ports):
@@ -295,6 +388,10 @@ def gen_lookup(rng, tier, stats):
         st["messy_trees"] += messy
         st["depth_hist"][str(depth)] = st["depth_hist"].get(str(depth), 0) + 1
         lv = list(leaves(tree))
+        st["hash_trees"] = st.get("hash_trees", 0) + has_hash(tree)
+        if len(lv) > 16:                                # enumerated ports multiply the addresses: keep a sample
+            keep = set(rng.sample(range(len(lv)), 16))
+            lv = [x for k, x in enumerate(lv) if k in keep]
         for a, ix in lv:
             ok = unambiguous(tree, ix)
             st["walked"] += 1
@@ -310,8 +407,14 @@ def gen_lookup(rng, tier, stats):
         for _ in range(3):
             if lv:
                 a, ix = rng.choice(lv)
-                c = rng.randint(0, 4)
-                if c == 0:
+                c = rng.randint(0, 5)
+                if c == 5:
+                    # an index at or behind the end of an enumerated port, or with a leading zero
+                    d = [k for k in range(len(a)) if a[k:k + 1].isdigit()]
+                    if d:
+                        k = rng.choice(d)
+                        a = a[:k] + rng.choice([b"0" + a[k:k + 1], b"3", b"12", b"13", b"99", b"4294967296"]) + a[k + 1:]
+                elif c == 0:
                     a = a[:rng.randint(0, len(a))]
                 elif c == 1:
                     a = a + rng.choice([b"x", b"/", b"/a", b":i"])
@@ -400,7 +503,7 @@ def expected_search(rows, s, needle, opt, query, bufsize):
     found = search_spec(rows, needle or b"", opt)
     n = needle or b""
     q = ["s:" + hx(s), "s:" + hx(n)] if query else []
-    arr = canon_pairs([("s:" + hx(p.name), "b:N" if not meta_bytes(p) else "b:" + hx(meta_bytes(p))) for p in found], opt != 0)
+    arr = canon_pairs([("s:" + hx(p.name), "b:" + hx(meta_bytes(p))) for p in found], opt != 0)
     types = ("ss" if query else "") + "sb" * len(found)
     a = q + [x for pr in arr for x in pr]
     left = "T=%s A=%s" % (types or "-", ",".join(a) or "-")
@@ -439,7 +542,7 @@ def gen_search(rng, tier, stats):
             targets.append(("E=" + ixs(ix) if known else "E=?", b"/" + a, [port_at(tree, ix)] if known else None, "single_port"))
         targets.append(("E=?", rng.choice([b"/nope", b"/a", b"a/b", b"/a/"]), None, "unknown_target"))
         for e, s, rows, kind in targets:
-            for _ in range(3):
+            for _ in range(3 if rows is not None else 1):     # unconstrained locations: memory safety only
                 opt = rng.randint(0, 2)
                 query = rng.random() < 0.4
                 cand = rows if rows else tree
@@ -481,7 +584,8 @@ def gen_search(rng, tier, stats):
                         st["buf_too_small"] += 1
                     else:
                         bufsize = mlen + rng.randint(1, 64)
-                    st["found_hist"][str(nfound)] = st["found_hist"].get(str(nfound), 0) + 1
+                    key = str(nfound) if nfound <= 16 else "17-32" if nfound <= 32 else "33-64" if nfound <= 64 else ">64"
+                    st["found_hist"][key] = st["found_hist"].get(key, 0) + 1
                     names = [p.name for p in search_spec(rows, needle or b"", 0)]
                     if len(set(names)) < len(names):
                         st["dup_name_results"] += 1
@@ -531,6 +635,82 @@ def gen_search_flat(rng, tier, stats):
                                                  max_ports, bufsize)
 
 
+NUM_NAMES = [b"a1", b"a2", b"a10", b"a01", b"a9", b"a09", b"a/9", b"a/10", b"a/10/", b"a/9/", b"a/1", b"p2/", b"p10/",
+             b"p2/x", b"p10/x", b"p#3/", b"p#12/", b"x#2", b"x#10", b"x#2:i", b"a", b"a/", b"a1/", b"a10/", b"a1/b", b"1", b"10", b"9",
+             b"09", b"a1:i", b"a2:f", b"a001", b"a1.5", b"a1.10"]
+
+
+def flat_query(rng, st, tree, opt, needles):
+    ts = show_tree(tree)
+    query = rng.random() < 0.4
+    r = rng.random()
+    needle = b"" if r < 0.45 else (None if r < 0.5 else rng.choice(needles))
+    s = rng.choice([b"", b"/"])
+    _, nfound, mlen = expected_search(tree, s, needle, opt, query, 1 << 30)
+    ncoll = len(search_spec(tree, needle or b"", 0))
+    need = max(1, ncoll + (1 if query else 0))
+    max_ports = need if rng.random() < 0.5 else need + rng.randint(1, 4)
+    r2 = rng.random()
+    bufsize = mlen if r2 < 0.3 else (mlen - rng.choice([1, 3, 4]) if r2 < 0.4 else mlen + rng.randint(1, 40))
+    st["queries"] += 1
+    st["root"] += 1
+    st["opt_hist"][str(opt)] += 1
+    st["with_query"] += query
+    st["null_needle"] += needle is None
+    key = str(nfound) if nfound <= 16 else "17-32" if nfound <= 32 else "33-64" if nfound <= 64 else ">64"
+    st["found_hist"][key] = st["found_hist"].get(key, 0) + 1
+    names = [p.name for p in search_spec(tree, needle or b"", 0)]
+    if len(set(names)) < len(names):
+        st["dup_name_results"] += 1
+    if opt == 2 and nfound < ncoll:
+        st["prefix_filtered"] += 1
+    return "S %s %s %s %d %d %d %d R" % (ts, hx(s), "N" if needle is None else hx(needle), opt, int(query), max_ports, bufsize)
+
+
+def gen_search_wide(rng, tier, stats):
+    """one table searched at the root: (a) names that differ in digits only (string order is not numeric order), (b) tables
+    of 17..120 rows (a real table has dozens of rows; sorting more than a handful of rows is a different code path of
+    std::sort), with `dir/` entries, entries below them and duplicates spread over the table"""
+    st = stats["search"]
+    st.setdefault("numeric_tables", 0)
+    st.setdefault("wide_tables", 0)
+    st.setdefault("wide_rows_max", 0)
+    for _ in range(150 if tier == "quick" else 6000):
+        k = rng.randint(2, 10)
+        tree = [Port(rng.choice(NUM_NAMES), rand_meta(rng, st), None) for _ in range(k)]
+        st["numeric_tables"] += 1
+        for opt in (1, 2):
+            yield flat_query(rng, st, tree, opt, [b"a", b"a1", b"a/", b"p", b"x#", b"1"])
+    sizes = [17, 18, 24, 33, 40, 64, 65, 100, 120]
+    for t in range(40 if tier == "quick" else 1200):
+        k = sizes[t] if t < len(sizes) else rng.randint(17, 120)
+        pre = rng.choice([b"", b"", b"n", b"osc"])
+        names = []
+        while len(names) < k:
+            r = rng.random()
+            if r < 0.55:
+                nm = pre + b"%d" % rng.randint(0, 3 * k)                    # n7, n70, n700: digit runs of varying length
+            elif r < 0.7:
+                nm = pre + bytes(rng.choice(b"abcxyz_") for _ in range(rng.randint(1, 6)))
+            elif r < 0.8:
+                nm = pre + bytes(rng.choice(b"abd") for _ in range(rng.randint(1, 2))) + b"/"
+            elif r < 0.9 and names:
+                d = [n for n in names if n.endswith(b"/")]
+                nm = (rng.choice(d) if d else rng.choice(names)) + bytes(rng.choice(b"abd") for _ in range(rng.randint(1, 2)))
+            elif names:
+                nm = rng.choice(names)                                      # duplicate
+            else:
+                continue
+            names.append(nm)
+        rng.shuffle(names)
+        tree = [Port(n + (rng.choice(ARGS) if not n.endswith(b"/") or rng.random() < 0.2 else b""),
+                     rand_meta(rng, st) if rng.random() < 0.5 else None, None) for n in names]
+        st["wide_tables"] += 1
+        st["wide_rows_max"] = max(st["wide_rows_max"], k)
+        for opt in (0, 1, 2, 2):
+            yield flat_query(rng, st, tree, opt, [pre, pre + b"1", pre + b"a", b"zz"])
+
+
 def oracle_search(w, out):
     e = w[8] if len(w) > 8 else "E=?"
     if e == "E=?":
@@ -551,7 +731,7 @@ def oracle_search(w, out):
 # ------------------------------------------------------------------ entry points
 def generate(rng, tier, stats):
     gens = [gen_collapse(rng, tier, stats), gen_lookup(rng, tier, stats), gen_search(rng, tier, stats),
-            gen_search_flat(rng, tier, stats)]
+            gen_search_flat(rng, tier, stats), gen_search_wide(rng, tier, stats)]
     for g in gens:
         for op in g:
             yield op
